@@ -21,6 +21,7 @@ func init() {
 			if mode == "async" && g.Bool(0.4) {
 				// one source called from several goroutines through a serialising constructor
 				sc.Sources[0].Ctor = g.Pick("safe", "default", "eventually")
+				sc.Sources[0].CtorAPI = g.PickInt(0, 0, 1, 2)
 				sc.Sources[0].Producers = g.Range(2, 3)
 			}
 			if mode == "hot" && g.Bool(0.6) {
